@@ -123,10 +123,17 @@ def run(rep, pdb, tier):
                                 bad.append((n, show(at[2], ctx), at[1], show(at[3], ctx)))
         rep.add("breakdown-exact/%s" % name, rule, not bad, bad[0][0] if bad else fn["body"],
                 "Err exits in the loop: %d; absolute thresholds: %s" % (n_err, [b[1:] for b in bad]), where=loc(bad[0][0]) if bad else "%s:%d" % (fn["file"], fn["span"][0]))
+        # ---- the recurrences are those of a residual that tracks the iterate
+        if r is not None:
+            from .c08 import rule_recurrence
+            rule_recurrence(rep, sv, name, r)
         # ---- breakdown-free: the scalars the recurrences divide by / give up on must be definite on the claimed class
         rule_breakdown_free(rep, sv, name)
     rep.floor("breakdown-exact/", 4)
     rep.floor("breakdown-free/", 4)
+    rep.floor("residual-tracks-iterate/", 5)
+    rep.floor("ok-tested/", 8)
+    rep.floor("tested-vector/", 6)
     rep.floor("zero-norm/", 4)
     rep.floor("accept-start/", 4)
     rep.assumptions += ["decided: the degenerate-start clause (zero right-hand side / exact initial guess are accepted with x untouched and no division by a zero norm), scale-free failure exits, and "
